@@ -19,6 +19,7 @@ run_one() {
   wt=$root/wt-$id
   git -C /repo worktree add --detach -q $wt HEAD >/dev/null 2>&1 || { echo "FAIL $id: worktree"; return; }
   if [ $kind = S ]; then patch=/verif/seeded/$id/patch.diff; else patch=/verif/refactors/$id/patch.diff; fi
+  if [ $kind = S ] && [ "$(awk -v id=$id '$1==id{print $2}' /verif/seeded/EXPECTED 2>/dev/null)" = obsolete ]; then echo "ok   $id obsolete (see its meta.json)"; git -C /repo worktree remove --force $wt >/dev/null 2>&1; return; fi
   if ! git -C $wt apply $patch 2>/dev/null; then echo "FAIL $id: patch does not apply"; return; fi
   mkdir -p $root/v-$id; cp /verif/known_findings.json $root/v-$id/
   /verif/bin/larkcheck -scan -repo $wt -verif $root/v-$id > $root/$id.out 2>&1
